@@ -372,8 +372,9 @@ Record pstate := mkps {
   ps_view : alist (option (N * list N)); (* session -> room and member set it can reconstruct: None = in no room *)
   ps_queue : alist (list (N * N));       (* session -> (kind, tag) of messages addressed to it while disconnected *)
   ps_broken : list N;                    (* connections the server can no longer write to (it still believes them connected) *)
+  ps_virt : list (N * (N * N));          (* virtual sessions seen so far and the room each was in (session ids are never reused) *)
 }.
-Definition ps_init : pstate := mkps empty_digest [] [] [].
+Definition ps_init : pstate := mkps empty_digest [] [] [] [].
 (* a session is reachable when it has a connection the server can write to *)
 Definition writable (broken : list N) (x : sd) : bool :=
   match x.(d_conn) with Some c => negb (nmem c broken) | None => false end.
@@ -454,6 +455,13 @@ Definition update_queue_b (broken : list N) (pd : digest) (o : op) (q : alist (l
   end.
 Definition update_queue := update_queue_b [].
 
+(* a bye, or a disinvite from the room the session is in, ends the session once it is delivered *)
+Definition closing_for (x : sd) (m : smsg) : bool :=
+  match m with
+  | SBye _ => true
+  | SDisinvite r => match x.(d_room) with Some k => N.eqb (snd k) r | None => false end
+  | _ => false end.
+
 Definition step_C06 (ps : pstate) (o : op) (ob : obs) (dg : digest) : bool :=
   let pd := ps.(ps_prev) in
   match o with
@@ -475,7 +483,7 @@ Definition step_C06 (ps : pstate) (o : op) (ob : obs) (dg : digest) : bool :=
                         N.eqb sid n &&
                         (* ... up to a bye / disinvite that was waiting among them: that one ends the session, nothing
                            can be written after it *)
-                        (if existsb (fun m => match m with SBye _ | SDisinvite _ => true | _ => false end) rest
+                        (if existsb (closing_for x) rest
                          then list_eqb pair_eqb (smsg_tags rest) (firstn (length (smsg_tags rest)) queued)
                          else list_eqb pair_eqb (smsg_tags rest) queued)
                     | [SError 11] => true                 (* throttled *)
@@ -485,7 +493,7 @@ Definition step_C06 (ps : pstate) (o : op) (ob : obs) (dg : digest) : bool :=
                     | [SError 11] => true
                     | _ =>
                       (* a bye or a disinvite that was waiting in the queue ends the session once it is delivered *)
-                      if existsb (fun m => match m with SBye _ | SDisinvite _ => true | _ => false end) got then
+                      if existsb (closing_for x) got then
                         negb (live dg n) && nmem c ob.(o_closed)
                       else
                       match find_sd dg n with
@@ -524,6 +532,32 @@ Definition step_C06 (ps : pstate) (o : op) (ob : obs) (dg : digest) : bool :=
   | _ => true
   end.
 
+(* ------------------------------------------------------------------ participants lists (C19, C04) *)
+(* "A virtual session disappears from the room when it is removed or when its internal client's session ends":
+   a participants update for a room does not list a virtual session that was in that room and is gone - it was
+   there before the step or is there after it.  (What else an update lists is the backend's business: the
+   server repeats the list the backend sent last.)  Exempt: what a resume writes to the resuming connection -
+   that is the queue of the time the session was away, replayed in order, leave events included.  Only judged
+   in the quiescent semantics (a delayed delivery shows an old list, by definition). *)
+Definition virt_was_in (virt : list (N * (N * N))) (sid : N) (k : N * N) : bool :=
+  existsb (fun e => N.eqb (fst e) sid && pair_eqb (snd e) k) virt.
+Definition part_ok (virt : list (N * (N * N))) (pd dg : digest) (o : op) (ob : obs) : bool :=
+  forallb (fun e =>
+     let '(c, m) := e in
+     match m with
+     | SPartL _ room ids =>
+         match o with
+         | OHello c' (HResume _) => N.eqb c c'
+         | _ => false end
+         || match receiver_backend pd dg c with
+            | Some b => forallb (fun i => negb (virt_was_in virt i (b, room)) || live pd i || live dg i) ids
+            | None => true end
+     | _ => true end) (all_msgs ob).
+Definition virt_next (virt : list (N * (N * N))) (dg : digest) : list (N * (N * N)) :=
+  fold_left (fun acc x => match x.(d_room) with
+                          | Some k => if is_virtual_d x && negb (virt_was_in acc x.(d_sid) k) then acc ++ [(x.(d_sid), k)] else acc
+                          | None => acc end) dg.(g_sessions) virt.
+
 (* ------------------------------------------------------------------ running the clauses over a trace *)
 Record pcfg := mkpcfg { pc_limits : list N; pc_quiescent : bool }.
 
@@ -536,7 +570,7 @@ Definition ps_next (ps : pstate) (o : op) (ob : obs) (dg : digest) : pstate :=
   let q2 := match o with
             | OHello c (HResume (IdPriv n)) => match sd_of_conn dg c with Some x => if N.eqb x.(d_sid) n then adel q1 n else q1 | None => q1 end
             | _ => q1 end in
-  mkps dg (update_views pd dg ob ps.(ps_view)) (filter (fun e => live dg (fst e)) q2) br2.
+  mkps dg (update_views pd dg ob ps.(ps_view)) (filter (fun e => live dg (fst e)) q2) br2 (virt_next ps.(ps_virt) dg).
 
 (* clause numbers reported with a failure *)
 Definition check_step (which : N) (cfg : pcfg) (last : bool) (ps : pstate) (o : op) (ob : obs) (dg : digest) : N :=
@@ -549,13 +583,15 @@ Definition check_step (which : N) (cfg : pcfg) (last : bool) (ps : pstate) (o : 
   | 4 => if negb (digest_C04 dg) then 1
          (* observers are compared once activity stopped: after every op in the quiescent
             semantics, at the end of a history with explicit deliveries *)
-         else if (cfg.(pc_quiescent) || last) && negb (observers_ok_b ps.(ps_broken) dg views) then 2 else 0
+         else if (cfg.(pc_quiescent) || last) && negb (observers_ok_b ps.(ps_broken) dg views) then 2
+         else if cfg.(pc_quiescent) && negb (part_ok ps.(ps_virt) pd dg o ob) then 3 else 0
   | 5 => if negb cfg.(pc_quiescent) || step_C05 pd o ob then 0 else 1
   | 6 => if negb cfg.(pc_quiescent) || step_C06 ps o ob dg then 0 else 1
   | 7 => if digest_C07 cfg.(pc_limits) dg then 0 else 1
   | 8 => if step_C08 pd o ob dg then 0 else 1
   | 9 => if digest_C09 dg then 0 else 1
-  | 19 => if negb (digest_C19 dg) then 1 else if step_C19 pd o ob dg then 0 else 2
+  | 19 => if negb (digest_C19 dg) then 1 else if negb (step_C19 pd o ob dg) then 2
+          else if cfg.(pc_quiescent) && negb (part_ok ps.(ps_virt) pd dg o ob) then 3 else 0
   | _ => 0
   end.
 
@@ -588,7 +624,7 @@ Definition hold_ok (md dg : digest) : bool :=
      | None => true end) dg.(g_sessions).
 
 Definition check_step_spec (which : N) (cfg : pcfg) (last : bool) (ps : pstate) (md md' : digest) (o : op) (ob : obs) (dg : digest) : N :=
-  let ps' := mkps md ps.(ps_view) ps.(ps_queue) ps.(ps_broken) in
+  let ps' := mkps md ps.(ps_view) ps.(ps_queue) ps.(ps_broken) ps.(ps_virt) in
   match check_step which cfg last ps' o ob dg with
   | 0 => match which with
          | 4 => if (cfg.(pc_quiescent) || last) && negb (observers_ok_b ps.(ps_broken) md' (update_views md dg ob ps.(ps_view))) then 12 else 0
